@@ -147,12 +147,14 @@ def step (cfg : Cfg) (url : Bytes → Bytes → Option UrlView) (buf : Bytes) : 
     | .chunkedBody =>
       if rest.isEmpty then .body rest (descOf .ch es contentLength vmaj vmin m u [])
       else
-        match Chunked.parse cfg.relaxed Chunked.St.init rest pipeSpace with
-        | .threw _ _ => .rej 0 .chunk
-        | .ret true c => .msg rest c.buf (descOf .ch es contentLength vmaj vmin m u c.out)
-        | .ret false c =>
-          if c.st.stage = .done then .rej 0 .chunk
-          else .body rest (descOf .ch es contentLength vmaj vmin m u c.out)
+        -- handleChunkedRequestBody: `bodyParser->parse(inBuf); inBuf = bodyParser->remaining()` (repeated while the parser
+        -- asks for pipe space, which `pipeSpace` octets of space make unnecessary below 1 GB)
+        let run := Chunked.feed cfg.relaxed (fun _ => pipeSpace) Chunked.Run.init rest
+        match run.verdict with
+        | .done => .msg rest run.inBuf (descOf .ch es contentLength vmaj vmin m u run.out)
+        | .more => .body rest (descOf .ch es contentLength vmaj vmin m u run.out)
+        | .tooLarge => .rej 0 .chunk
+        | .reject _ => .rej 0 .chunk
 
 /-- a request handed to `doCallouts()`: offsets into the client stream -/
 structure Msg where
